@@ -82,6 +82,9 @@ def conv(x, rep):
         return int(x) if x.denominator == 1 else x
     if rep == "float":
         return float(x)
+    if rep == "npint":
+        x = F(x)
+        return np.int64(int(x)) if x.denominator == 1 else float(x)
     if rep == "npfloat":
         return np.float64(float(x))
     raise ValueError(rep)
@@ -101,6 +104,8 @@ def points_arg(P, rep):
         return arr
     if rep == "npfloat":
         return np.array([float(v) for v in P], dtype="float64")
+    if rep == "npint":
+        return [float(v) for v in P]  # numpy integer knots with float control points
     return [conv(v, rep) for v in P]
 
 
